@@ -11,12 +11,27 @@ Theorem C04_result_is_best_evaluated :
   forall (k0 ks0 : Z) (o : opts) (l : list init_call) (fsd0 : Q) (evs : list iter_ev),
     o_sloppy o = true -> det_ok k0 ks0 o l fsd0 evs = true ->
     let s := run k0 ks0 o l fsd0 evs in
+    exn s = false ->        (* the run returned a result: no target fault is propagating (C10).  Needed: a fault in
+                               the middle of a poll leaves earlier, better poll values in [calls] with [cur] unchanged *)
     calls s <> [] -> (exists c, In c l /\ ic_record c = true /\ e_fault (ic_eval c) = false) ->
     (exists y, In (i_u (cur s), Some y) (calls s) /\ (y == i_y (cur s))%Q) /\   (* x was evaluated, with that value *)
     (i_f (cur s) == i_y (cur s))%Q /\ (i_s (cur s) == 0)%Q /\                    (* fval is the observed value, fsd = 0 *)
     (forall u y, In (u, Some y) (calls s) -> (i_y (cur s) <= y)%Q).              (* nothing evaluated is strictly lower *)
 Proof. exact result_is_best_evaluated. Qed.
 Print Assumptions C04_result_is_best_evaluated.
+
+(* The premise [exn s = false] above is needed: with every other premise in place, a target fault in the
+   middle of a poll step propagates before the incumbent is updated, leaving a strictly better evaluated
+   value in [calls]. *)
+Theorem C04_fault_premise_needed :
+  exists k0 ks0 o l fsd0 evs,
+    o_sloppy o = true /\ det_ok k0 ks0 o l fsd0 evs = true /\
+    let s := run k0 ks0 o l fsd0 evs in
+    exn s = true /\ calls s <> [] /\
+    (exists c, In c l /\ ic_record c = true /\ e_fault (ic_eval c) = false) /\
+    exists u y, In (u, Some y) (calls s) /\ (y < i_y (cur s))%Q.
+Proof. exact best_evaluated_needs_no_fault. Qed.
+Print Assumptions C04_fault_premise_needed.
 
 (* The incumbent value recorded per iteration never increases. *)
 Theorem C04_history_monotone :
